@@ -104,9 +104,20 @@ Theorem C14_discover_preserves_text : forall f,
   fn_lines (discover f) = mfn_lines f /\ fn_params (discover f) = mfn_params f /\
   fn_annot (discover f) = mfn_annot f /\ fn_tag (discover f) = mfn_tag f /\
   fn_raises (discover f) = mfn_raises f /\ fn_name (discover f) = mfn_cname f /\
-  fn_is_class (discover f) = false.
+  fn_is_class (discover f) = mfn_is_class f.
 Proof. exact discover_preserves_text. Qed.
 Print Assumptions C14_discover_preserves_text.
+
+(* A function has one body.  A class (`class f:` with `__init__`, whose statements are the ones listed, and
+   `def get(self): return self.v`) has one body per method, in source order; `get` mentions only `self`, which is not a
+   name of the module: it contributes no variable, no external name and no interaction (its signature is made of the
+   class's text and argument context only). *)
+Theorem C14_discover_bodies : forall f,
+  fn_bodies (discover f) =
+  BCons (Body (disc_vars f) (disc_exts f) (steps_of (disc_steps f)))
+        (if mfn_is_class f then BCons (Body [] [] SNil) BNil else BNil).
+Proof. exact discover_bodies. Qed.
+Print Assumptions C14_discover_bodies.
 
 (* Every function mentioned at any depth is a node of the analysis tree, and there is no other node. *)
 Theorem C14_discover_tree_complete : forall f h, mfn_reach f h -> fn_reach (discover f) (discover h).
@@ -117,9 +128,19 @@ Theorem C14_discover_tree_sound : forall f k, fn_reach (discover f) k -> exists 
 Proof. exact discover_tree_sound. Qed.
 Print Assumptions C14_discover_tree_sound.
 
-Theorem C14_discover_plain : forall f, plain_fn (discover f) = true.
+(* when no class is written anywhere in the syntax tree, every node is a plain function with a single body *)
+Theorem C14_discover_plain : forall f, mfn_no_class f = true -> plain_fn (discover f) = true.
 Proof. exact discover_plain. Qed.
 Print Assumptions C14_discover_plain.
+
+(* in general every node is a plain function with a single body or a class with exactly the two bodies above *)
+Theorem C14_discover_shaped : forall f, shaped_fn (discover f) = true.
+Proof. exact discover_shaped. Qed.
+Print Assumptions C14_discover_shaped.
+
+Theorem C14_plain_fn_shaped : forall f, plain_fn f = true -> shaped_fn f = true.
+Proof. exact plain_fn_shaped. Qed.
+Print Assumptions C14_plain_fn_shaped.
 
 (* a negative number written as an argument of a nested keep is not an ast.Constant: it is a run-time argument *)
 Theorem C14_negative_literal_is_runtime : forall z, (z < 0)%Z -> aarg_of (MLit (VInt z)) = ARun.
